@@ -27,8 +27,13 @@ namespace LunarVerif.C09
 inductive DKind where
   | throttle (r : Remedy)     -- `r.name` is ignored: the policy's name is used
   | retry (attempts lo hi : Int)  -- response side only (its parameters do not matter for the verdict)
-  | other                     -- authentication (o_auth / api_key / basic), account orchestration: they change the
-                              -- forwarded request (Modify/GenerateRequestAction), never the verdict
+  | other                     -- basic authentication: changes the forwarded request (ModifyRequestAction: the
+                              -- Authorization header), never the verdict
+  | oauth                     -- o_auth authentication (GenerateRequestAction): rewrites the body and RE-SENDS every
+                              -- header the request carries at that point; never the verdict
+  | acct (hname : String) (vals : List String)   -- account_orchestration: round robin over accounts whose token
+                              -- is the header `hname` with these values (ModifyRequestAction)
+  | apikey (hname hval : String)                 -- api_key authentication: sets that header
   | fixed (status : Int)      -- fixed_response: answers when the request carries `early-response: true`
   | cache (maxrec : Nat)      -- caching (endpoint only): stores PROVIDER responses only (fix F09g); none exist here
 deriving Repr
@@ -59,7 +64,8 @@ def toDAns : Answer → DAns
 /-- the state the verdicts depend on: the rate-limit state (the caching plugin's store holds provider responses
     only, and this family has none) -/
 structure DState where
-  lim : State Key := []
+  lim     : State Key := []
+  acctIdx : Nat := 0      -- `AccountOrchestrationPlugin.accountID`: ONE round-robin counter for all its remedies
 deriving Repr
 
 /-- `lo.FindDuplicates` of the policy names is non-empty. -/
@@ -81,7 +87,7 @@ def isCache (p : DPol) : Bool := match p.kind with | .cache _ => true | _ => fal
 /-- kinds that can never answer a request themselves -/
 def isTransparent (p : DPol) : Bool :=
   match p.kind with
-  | .retry _ _ _ | .other | .cache _ => true
+  | .retry _ _ _ | .other | .oauth | .cache _ => true
   | _ => false
 
 /-- `strings.Trim(url, "./")`: how both `BuildEndpointPolicyTree` (the key under which the methods of one URL
@@ -102,28 +108,78 @@ def chain (ps : List DPol) (url method : String) : List DPol :=
   (ps.filter fun p => p.ep.isSome && applies p url method) ++
   (ps.filter fun p => p.ep.isNone && applies p url method)
 
-/-- One remedy's `OnRequest`. -/
+/-- a header is on the request (Go map lookup `v, found := Headers[name]`) -/
+def hasHdr (hs : List (String × String)) (name : String) : Bool := hs.any (fun p => p.1 == name)
+
+/-- the request's headers as a Go map: one value per name, the last binding -/
+def hdrMap (hs : List (String × String)) : List (String × String) :=
+  (hs.map (·.1)).eraseDups.map fun n => (n, lookupHdr hs n)
+
+/-- One remedy's `OnRequest` on the request as the chain sees it at this point (`hs`): new state, its answer, the
+    header it puts on the request for the remedies after it, if any (`ModifyRequestAction.HeadersToSet` applied by
+    `EnsureRequestIsUpdated`), and the headers its action reports as set on the forwarded request. -/
 def stepPol (cap : CapFn) (url method : String) (hs : List (String × String)) (t : Nat)
-    (p : DPol) (s : DState) : DState × DAns :=
+    (p : DPol) (s : DState) : DState × DAns × Option (String × String) × List (String × String) :=
   match p.kind with
   | .throttle r =>
     let (lim', a) := pluginStep cap s.lim { r with name := p.name, identityHash := true } hs t
-    ({ s with lim := lim' }, toDAns a)
-  | .fixed status => (s, if lookupHdr hs "early-response" == "true" then .early status goLunar else .pass)
-  | .retry _ _ _ | .other | .cache _ => (s, .pass)
+    ({ s with lim := lim' }, toDAns a, none, [])
+  | .fixed status => (s, (if lookupHdr hs "early-response" == "true" then .early status goLunar else .pass), none, [])
+  | .acct hname vals =>
+    -- currentAccountID := accountID % n ; accountID = (accountID + 1) % n ; the token is set unless the request
+    -- already carries exactly it
+    let n := vals.length
+    if n == 0 then (s, .err, none, []) else
+    let v := vals.getD (s.acctIdx % n) ""
+    let s' := { s with acctIdx := (s.acctIdx + 1) % n }
+    if hasHdr hs hname && lookupHdr hs hname == v then (s', .pass, none, []) else (s', .pass, some (hname, v), [(hname, v)])
+  | .apikey hname hval => (s, .pass, some (hname, hval), [(hname, hval)])
+  | .oauth => (s, .pass, none, hdrMap hs)
+  | .retry _ _ _ | .other | .cache _ => (s, .pass, none, [])
 
-/-- `runOnRequest` over a chain: EVERY remedy takes its step; the first answer that is not a pass wins. -/
-def runChain (cap : CapFn) (url method : String) (hs : List (String × String)) (t : Nat) :
-    List DPol → DState → DAns → DState × DAns
-  | [], s, ans => (s, ans)
-  | p :: ps, s, ans =>
-    let (s', a) := stepPol cap url method hs t p s
-    runChain cap url method hs t ps s' (if ans == .pass then a else ans)
+/-- `runOnRequest` over a chain, verdict side: EVERY remedy takes its step on the request as the earlier remedies left
+    it (`action.EnsureRequestIsUpdated(&args)`: a header an earlier remedy set REPLACES the client's); the first answer
+    that is not a pass wins. -/
+def runChain (cap : CapFn) (url method : String) (t : Nat) :
+    List DPol → DState → List (String × String) → DAns → DState × DAns
+  | [], s, _, ans => (s, ans)
+  | p :: ps, s, hs, ans =>
+    let (s', a, set, _) := stepPol cap url method hs t p s
+    let ans' := if ans == .pass then a else ans
+    match set with
+    | none => runChain cap url method t ps s' hs ans'
+    | some nv => runChain cap url method t ps s' (hs ++ [nv]) ans'
 
-/-- `runner.DispatchOnRequest` as far as the verdict, the rejection status and body are concerned. -/
+/-- … header side: what the prioritised action reports as set on the forwarded request (`MergeHeaders`: for one name
+    the later remedy's value). -/
+def outsOf (cap : CapFn) (url method : String) (t : Nat) :
+    List DPol → DState → List (String × String) → List (String × String) → List (String × String)
+  | [], _, _, outs => outs
+  | p :: ps, s, hs, outs =>
+    let (s', _, set, rep) := stepPol cap url method hs t p s
+    let outs' := outs.filter (fun q => !rep.any (fun r => r.1 == q.1)) ++ rep
+    match set with
+    | none => outsOf cap url method t ps s' hs outs'
+    | some nv => outsOf cap url method t ps s' (hs ++ [nv]) outs'
+
+/-- `runner.DispatchOnRequest` as far as the verdict, the rejection status and body, and the headers the gateway
+    sets on a forwarded request are concerned. -/
 def dispatchStep (cap : CapFn) (s : DState) (ps : List DPol) (url method : String)
-    (hs : List (String × String)) (t : Nat) : DState × DAns :=
-  runChain cap url method hs t (chain ps url method) s .pass
+    (hs : List (String × String)) (t : Nat) : DState × DAns × List (String × String) :=
+  let ch := chain ps url method
+  ((runChain cap url method t ch s hs .pass).1, (runChain cap url method t ch s hs .pass).2,
+   outsOf cap url method t ch s hs [])
+
+/-- header names set by the account-orchestration / api-key remedies listed BEFORE the first throttling remedy of a
+    chain: the throttling remedy groups by the value THEY put on the request -/
+def settersBefore : List DPol → List String
+  | [] => []
+  | p :: ps =>
+    match p.kind with
+    | .throttle _ => []
+    | .acct hname _ => hname :: settersBefore ps
+    | .apikey hname _ => hname :: settersBefore ps
+    | _ => settersBefore ps
 
 /-- the throttling policies of a request's chain, with their position in the configuration -/
 def throttlesOf (ps : List DPol) (url method : String) : List (Nat × Remedy) :=
